@@ -27,8 +27,10 @@ def forced_classes(rng, n):
     out = []
     pool = [K(i) for i in range(1, 9)] + [N(i) for i in range(1, 9)]
     for _ in range(n):
-        kind = rng.choice(["union_order", "hidden_join", "recreate", "identity_join", "shared_leaf"])
-        if kind == "shared_leaf":
+        kind = rng.choice(["union_order", "hidden_join", "recreate", "identity_join", "shared_leaf", "dedup_proj"])
+        if kind == "dedup_proj":
+            p = sp.dedup_then_project(rng)
+        elif kind == "shared_leaf":
             # the SAME leaf object under a calculation and, elsewhere in the tree, as a join operand next to a relation
             # that really has a column of the calculated tag (compiling one branch must not leak into the other)
             a, b, d = K(1), rng.choice([K(2), N(1)]), rng.choice([K(3), N(2)])
@@ -72,7 +74,7 @@ def forced_classes(rng, n):
 
 def make_cases(rng, tier):
     n = 450 if tier == "quick" else 12000
-    items = forced_classes(rng, 60 if tier == "quick" else 1200)
+    items = forced_classes(rng, 120 if tier == "quick" else 2400)
     for _ in range(n):
         p, _cols, ordered = sp.gen_sqlprog(rng, rng.choice([1, 2, 3, 4, 5, 7]))
         items.append((p, ordered, "random"))
